@@ -117,7 +117,34 @@ type Unsupp struct {
 	Ok int
 }
 
+// Shadowing by names that cancel each other: two own fields with the same JSON name are both
+// dropped, and still hide the field of that name an embedded struct would promote.
+type ShadowInner struct {
+	ID   int    `json:"id"`
+	Name string `json:"name"`
+	Only string `json:"only"`
+}
+
+type ShadowOuter struct {
+	First  int `json:"id"`
+	Second int `json:"id"`
+	ShadowInner
+}
+
+type ShadowOuterP struct {
+	A string `json:"name"`
+	B string `json:"name"`
+	*ShadowInner
+	Z int
+}
+
+type ShadowDeep struct {
+	ShadowOuter
+	X int `json:"x"`
+}
+
 var Library3 = []reflect.Type{
+	reflect.TypeOf(ShadowOuter{}), reflect.TypeOf(ShadowOuterP{}), reflect.TypeOf(ShadowDeep{}),
 	reflect.TypeOf(EInt(0)), reflect.TypeOf(EmbNonStruct{}), reflect.TypeOf(PromotedMarshaler{}), reflect.TypeOf(PromotedText{}), reflect.TypeOf(PromotedPtr{}),
 	reflect.TypeOf(StdTypes{}), reflect.TypeOf(RawTypes{}), reflect.TypeOf(EscNames{}), reflect.TypeOf(ArrMarsh{}), reflect.TypeOf(Unsupp{}),
 	reflect.TypeOf(map[time.Time]string(nil)), reflect.TypeOf([]big.Int(nil)), reflect.TypeOf(map[string]*big.Int(nil)),
